@@ -39,7 +39,7 @@ class C20(Prop):
     level_note = 'Trusted: Lean kernel + standard axioms; Rx 3.2 / ReactiveX 4 operator internals; the delegation theorem is a table and says so.'
     design_ref = '§5 C20'
     rule = ('both Rx versions x interaction (stream, channel inbound, response, fire-and-forget, metadata-push, setup) x element count 0/1/many x request limit 1..max x error position (streams; response observables that fail at once, after their element, or later) x '
-            'disposal moment x delivery pacing by the harness; a CANCEL from the requester while the delegate\'s source (back-pressure factory over a gated async generator, or a Subject) has credit outstanding and more to give; non-trivial = more elements than the request limit, an error, a disposal or a one-way request through the handler adapter; '
+            'disposal moment x delivery pacing by the harness; 2..3 connections served through one handler-factory wrapper (each must get a delegate of its own, as with the core API); a CANCEL from the requester while the delegate\'s source (back-pressure factory over a gated async generator, or a Subject) has credit outstanding and more to give; non-trivial = more elements than the request limit, an error, a disposal or a one-way request through the handler adapter; '
             'distinct = distinct case')
     assumptions = []
 
@@ -48,7 +48,7 @@ class C20(Prop):
         n = 600 if tier == 'quick' else 8000
         for _ in range(n):
             ver = rng.choice(['rx3', 'rx4'])
-            k = rng.choice(['cstream', 'cstream', 'cstream', 'cresp', 'coneway', 'hstream', 'hstream', 'honeway', 'hresp', 'hchannel', 'hcancel'])
+            k = rng.choice(['cstream', 'cstream', 'cstream', 'cresp', 'coneway', 'hstream', 'hstream', 'honeway', 'hresp', 'hchannel', 'hcancel', 'hfactory'])
             c = {'ver': ver, 'kind': k}
             if k == 'cstream':
                 count = rng.choice([0, 1, 2, 5, 9])
@@ -67,6 +67,9 @@ class C20(Prop):
             elif k == 'hcancel':
                 # the requester cancels a stream served through the handler adapter while credit is outstanding and the delegate's source has more
                 c.update(source=rng.choice(['factory', 'factory', 'subject']), n0=rng.choice([3, 10, 2 ** 31 - 1]), before=rng.choice([0, 1, 3]), after=rng.choice([1, 4]))
+            elif k == 'hfactory':
+                # several connections served through one handler-factory wrapper: as with the core API, each gets a delegate of its own
+                c.update(conns=rng.choice([2, 2, 3]), ops=[[rng.randint(0, 2), rng.choice(['fnf', 'mp', 'setup'])] for _ in range(rng.randint(2, 6))])
             elif k == 'honeway':
                 c.update(op=rng.choice(['fnf', 'mp', 'setup']))
             elif k == 'hresp':
@@ -332,6 +335,64 @@ class C20(Prop):
         await server.close()
         return res
 
+    async def _hfactory(self, loop, case):
+        from rsocket.rsocket_server import RSocketServer
+        from rsocket.payload import Payload
+        L = libs(case['ver'])
+        rx = L[0]
+        made = []
+
+        class D(L[4]):
+            def __init__(self):
+                super().__init__()
+                self.seen = []
+                made.append(self)
+
+            async def on_setup(self, data_encoding, metadata_encoding, payload):
+                self.seen.append('setup')
+
+            async def on_metadata_push(self, metadata):
+                self.seen.append('mp')
+
+            async def request_fire_and_forget(self, payload):
+                self.seen.append('fnf')
+
+            async def request_response(self, payload):
+                return rx.of(Payload(','.join(self.seen).encode()))
+        factory = L[5](D)            # one wrapper, as in `handler_factory=reactivex_handler_factory(MyHandler)`
+        conns = []
+        for _ in range(case['conns']):
+            t = simnet.ScriptedTransport(loop)
+            conns.append((t, RSocketServer(t, handler_factory=factory)))
+        await loop.settle()
+        want = [[] for _ in conns]
+        sids = [1 for _ in conns]
+        for ci, op in case['ops']:
+            if ci >= len(conns):
+                continue
+            t = conns[ci][0]
+            if op == 'setup':
+                if 'setup' in want[ci]:
+                    continue
+                t.deliver(engine.build_frame({'ty': 'SETUP', 'sid': 0, 'data': [1]}).serialize())
+            elif op == 'mp':
+                t.deliver(engine.build_frame({'ty': 'METADATA_PUSH', 'sid': 0, 'data': [7]}).serialize())
+            else:
+                t.deliver(engine.build_frame({'ty': 'REQUEST_FNF', 'sid': sids[ci], 'data': [8]}).serialize())
+                sids[ci] += 2
+            want[ci].append(op)
+            await loop.settle()
+        answers = []
+        for ci, (t, server) in enumerate(conns):
+            n0 = len(t.sent)
+            t.deliver(engine.build_frame({'ty': 'REQUEST_RESPONSE', 'sid': sids[ci], 'data': [3]}).serialize())
+            await loop.settle()
+            got = [bytes(e[2].data or b'').decode() for e in t.sent[n0:] if hasattr(e[2], 'flags_next') and e[2].stream_id == sids[ci]]
+            answers.append(got[0] if got else None)
+        for t, server in conns:
+            await server.close()
+        return {'delegates': len(made), 'answers': answers, 'want': [','.join(w) for w in want]}
+
     async def _hcancel(self, loop, case):
         import asyncio
         from rsocket.payload import Payload
@@ -513,6 +574,10 @@ class C20(Prop):
                 add('delegate-not-reached:' + case['op'], 'the %s reached the delegate as %s (wire: %s)' % (case['op'], obs['calls'], obs['wire'][:2]))
             if any(w.startswith('ERROR') for w in obs['wire']):
                 add('one-way-request-answered-with-error:' + case['op'], str(obs['wire'][:2]))
+        elif k == 'hfactory':
+            if obs['answers'] != obs['want']:
+                add('handler-delegate-shared-between-connections', '%d connections through one %s handler-factory wrapper, %d delegate instances; each connection\'s delegate should have seen %s, the connections\' delegates report %s' % (
+                    case['conns'], case['ver'], obs['delegates'], obs['want'], obs['answers']))
         elif k == 'hcancel':
             how = '%s source behind the %s handler adapter, %d elements before the CANCEL, %d offered after it, initial request-n %d' % (case['source'], case['ver'], case['before'], case['after'], case['n0'])
             if obs['sent_after_cancel']:
@@ -576,7 +641,7 @@ class C20(Prop):
         k = case['kind']
         if k == 'cstream' and (case['count'] > case['limit'] or case['end'] == 'error' or case['dispose_after'] is not None):
             return json.dumps(case, sort_keys=True)
-        if k in ('honeway', 'hstream', 'hchannel', 'hresp', 'cresp', 'hcancel'):
+        if k in ('honeway', 'hstream', 'hchannel', 'hresp', 'cresp', 'hcancel', 'hfactory'):
             return json.dumps(case, sort_keys=True)
         return None
 
